@@ -758,7 +758,9 @@ fn check_api(shape: &[usize]) -> Result<(), String> {
     let odd: Array<f64> = Array::new((0..cells).map(|f| odd_values[f % odd_values.len()]).collect::<Vec<_>>(), shape.to_vec()).map_err(|e| format!("new: {e}"))?;
     let negative: Array<f64> = Array::new((0..cells).map(|f| -(f as f64) - 0.5).collect::<Vec<_>>(), shape.to_vec()).map_err(|e| format!("new: {e}"))?;
     let tiny: Array<f64> = Array::new((0..cells).map(|f| tiny_values[f % tiny_values.len()]).collect::<Vec<_>>(), shape.to_vec()).map_err(|e| format!("new: {e}"))?;
-    for arr in [&odd, &negative, &tiny] {
+    // entries that cancel pairwise: many views add up to exactly zero without being empty
+    let cancelling: Array<f64> = Array::new((0..cells).map(|f| if f % 2 == 0 { (f / 2 + 1) as f64 } else { -((f / 2 + 1) as f64) }).collect::<Vec<_>>(), shape.to_vec()).map_err(|e| format!("new: {e}"))?;
+    for arr in [&odd, &negative, &tiny, &cancelling] {
         for a_ in 0..d {
             let s = arr.sum(Axis(a_));
             let mut by_hand = vec![0.0f64; cells / shape[a_]];
